@@ -34,6 +34,7 @@ def main():
                              (v[0][:150] if v else c.stdout.strip().splitlines()[-1][:150]) + f" ({time.time()-t:.0f}s)"))
         finally:
             sh("git -C /repo checkout -- . && git -C /repo clean -fdq rdflib")
+            sh(f"cd {ROOT} && git checkout -- lean/RV/*/Tables.lean")   # tables regenerated from the patched source
             for ev, txt in saved.items():   # evidence must describe the unchanged tree
                 open(ev, "w").write(txt)
     out = ["# Seeded changes vs checks (quick tier)", "", "| seeded id | check | result | first line |", "|---|---|---|---|"]
